@@ -19,12 +19,12 @@ operation — whatever write the process dies in front of, the reopened store (t
 is rebuilt from it) is one from which nothing has been skipped -/
 theorem inv_prefix (touches : Nat → Nat → Bool) (g : G) (op : Op) (j : Nat)
     (hi : Inv touches g) (ho : OpOk touches g op) : Inv touches (stepG g op j) := by
-  sorry
+  exact inv_stepG touches g op j hi ho
 
 /-- **C08, every history with crashes anywhere** -/
 theorem inv_run_crashes (touches : Nat → Nat → Bool) (g : G) (h : List (Op × Option Nat))
     (hi : Inv touches g) (ho : HistOk touches g h) : Inv touches (runG touches g h) := by
-  sorry
+  exact inv_runG touches h g hi ho
 
 /-- after any history with crashes, continued syncing that reaches `tip` with no record pending
 has indexed every block that touches a registered script above its registration number: the same
@@ -35,7 +35,7 @@ theorem converges_to_the_same_index (touches : Nat → Nat → Bool) (g : G)
     (s n b : Nat) (hs : (s, n) ∈ (runG touches g h).p.scripts) (ht : touches s b = true)
     (hlo : (runG touches g h).lo s < b) (hb : b ≤ tip) :
     (s, b) ∈ (runG touches g h).p.indexed := by
-  sorry
+  exact indexed_of_done (inv_runG touches h g hi ho) hdone hs ht hlo (Nat.le_trans hb htip)
 
 /-! ## the write orders before the repairs lose activity -/
 
@@ -52,7 +52,15 @@ theorem old_sendblock_order_loses :
     Inv touches g ∧
     let p' := applyWs g.p ((oldBlocksWrites g.p).take 1)
     ¬ Inv touches ⟨p', g.lo⟩ := by
-  sorry
+  intro touches g
+  refine ⟨inv_example_pending, ?_⟩
+  intro p' h
+  have hc := h.cover (1, 0) (by decide) 5 (by decide) (by decide) (by decide)
+  rcases hc with hc | ⟨r, hr, _⟩
+  · exact absurd hc (by decide)
+  · have hrec : p'.records = [] := by decide
+    have hr' : r ∈ p'.records := hr
+    rw [hrec] at hr'; cases hr'
 
 /-- `update_filter_scripts` as it was (before 704dab0): three separate writes -/
 def oldSetWrites (scripts : List (Nat × Nat)) (target : Nat) : List W :=
@@ -65,7 +73,15 @@ theorem old_set_scripts_writes_lose :
     Inv touches g ∧
     let p' := applyWs g.p ((oldSetWrites [(1, 10), (2, 3)] 3).take 1)
     ¬ Inv touches ⟨p', fun s => if s = 2 then 3 else 0⟩ := by
-  sorry
+  intro touches g
+  refine ⟨inv_example_idle, ?_⟩
+  intro p' h
+  have hc := h.cover (2, 3) (by decide) 5 (by decide) (by decide) (by decide)
+  rcases hc with hc | ⟨r, hr, _⟩
+  · exact absurd hc (by decide)
+  · have hrec : p'.records = [] := by decide
+    have hr' : r ∈ p'.records := hr
+    rw [hrec] at hr'; cases hr'
 
 /-! ## non-vacuity -/
 
@@ -75,6 +91,7 @@ example :
     let g : G := ⟨⟨[(1, 0)], 10, [⟨1, 10, [5]⟩], []⟩, fun _ => 0⟩
     Inv touches g ∧ OpOk touches g .blocks ∧ (opWrites g.p .blocks).length = 3 ∧
     (stepG g .blocks 1).p.records ≠ [] ∧ (1, 5) ∈ (stepG g .blocks 1).p.indexed := by
-  sorry
+  intro touches g
+  exact ⟨inv_example_pending, trivial, by decide, by decide, by decide⟩
 
 end C08
